@@ -42,6 +42,7 @@ struct Cfg
   bool enforce = true;
   bool relchange = false;
   double minrc = 0, maxrc = 0;
+  bool other_img = false; // set_up() with ANOTHER image object of the same characteristics than the one given to reconstruct()
 };
 
 // documented in OSMAPOSLReconstruction::set_up: enforce_initial_positivity lifts non-positive values of the INITIAL
@@ -234,6 +235,7 @@ decode(const json& c, const Fixture& F)
   k.N = c["subsets"].get<int>();
   k.start_subset = c["start_subset"].get<int>() % k.N;
   k.n_sub = c["iters"].get<int>() * k.N;
+  k.other_img = c.value("other_img", false);
   k.use_subsens = c["use_subsens"].get<bool>();
   k.prior.kind = c["prior"].get<int>();
   k.prior.kappa = c["kappa"].get<bool>();
@@ -364,10 +366,21 @@ execute(OSMAPOSLReconstruction<target_type>& recon, const Fixture& F, const Cfg&
   StdoutSilencer quiet(k.fu.kind == 2 || k.fi.kind == 2);
   try
     {
-      if (recon.set_up(target) != Succeeded::yes)
+      // Reconstruction::reconstruct(target): "set_up() has to be called before" with an image of the same characteristics (check()); round 4:
+      // with k.other_img the two are DIFFERENT objects (set_up may change the values of its image - the initial positivity threshold -, so
+      // its values are copied to the image that is reconstructed).  Every file saved during the run must hold the iterate, not set_up's image.
+      shared_ptr<target_type> setup_image = target;
+      if (k.other_img)
+        setup_image.reset(target->clone());
+      if (recon.set_up(setup_image) != Succeeded::yes)
         {
           *setup_rejected = true;
           return "set_up returned Succeeded::no";
+        }
+      if (k.other_img)
+        {
+          std::copy(setup_image->begin_all(), setup_image->end_all(), target->begin_all());
+          stats().count("runs with set_up(image A) and reconstruct(image B)");
         }
     }
   catch (const stir_verif::AssertionFailure&)
@@ -1036,6 +1049,7 @@ gen(Src& s, int size)
     c["filt_i"] = (fc >= 10 && fc != 13) ? gen_filter(s, N) : off;
   }
   c["enforce"] = s.coin();
+  c["other_img"] = s.chance(1, 3);
   c["relchange"] = s.chance(1, 6);
   c["minrc"] = s.pick(std::vector<double>{ 0., 0.25, 0.5, 0.9 });
   c["maxrc"] = s.pick(std::vector<double>{ 1.1, 1.5, 2., 10. });
